@@ -101,6 +101,10 @@ enum Shp {
 	Const,
 	Up,
 	Down,
+	/// golden-ratio Weyl sequence: every value new, the extremum leaves the window at irregular ages
+	VolFine,
+	/// the same quantised to 8 levels: ties and plateaus at irregular distances
+	VolCoarse,
 }
 struct SegSys {
 	name: String,
@@ -114,6 +118,7 @@ struct SegState {
 	rf: Box<dyn RefAny>,
 	cur: f64,
 	n: usize,
+	k: u64,
 }
 impl System for SegSys {
 	type State = SegState;
@@ -128,7 +133,7 @@ impl System for SegSys {
 			.map(|&n| {
 				let p = Params::N(n as PeriodType);
 				let v0 = In::V(0.0);
-				(SegState { imp: (sp.ctor)(&p, &v0).unwrap(), rf: mk_ref(self.spec_name)(&p, &v0), cur: 0.0, n }, format!("{}({n}) v0=0", self.spec_name))
+				(SegState { imp: (sp.ctor)(&p, &v0).unwrap(), rf: mk_ref(self.spec_name)(&p, &v0), cur: 0.0, n, k: 0 }, format!("{}({n}) v0=0", self.spec_name))
 			})
 			.collect()
 	}
@@ -147,15 +152,21 @@ impl System for SegSys {
 				v.push(((sh, l), 0));
 			}
 		}
+		v.push(((Shp::VolFine, 3 * n + 17), 0));
+		v.push(((Shp::VolCoarse, 3 * n + 17), 0));
 		v
 	}
 	fn step(&self, s: &SegState, a: &(Shp, u32)) -> Step<SegState> {
 		let mut n = s.clone();
 		for j in 0..a.1 {
-			n.cur += match a.0 {
-				Shp::Const => 0.0,
-				Shp::Up => 1.0,
-				Shp::Down => -1.0,
+			n.k += 1;
+			let w = (n.k as f64 * 0.618_033_988_749_894_9).fract();
+			n.cur = match a.0 {
+				Shp::Const => n.cur,
+				Shp::Up => n.cur + 1.0,
+				Shp::Down => n.cur - 1.0,
+				Shp::VolFine => (w * 64.0 - 32.0) as ValueType as f64,
+				Shp::VolCoarse => (w * 8.0).floor() - 4.0,
 			};
 			let i = In::V(n.cur as ValueType);
 			let out = match catch(|| n.imp.next(&i)) {
